@@ -576,7 +576,8 @@ class Rig:
             self._wrap("etag")
             self._wrap("load")
             self.p0 = json.loads(json.dumps(c["p0"]))
-            self.guard = Guard(self.p0)
+            # round 6: a share of the schedules runs with a decision cache whose backend fails (c10.FlakyCache)
+            self.guard = Guard(self.p0, cache=c10.FlakyCache(c["cache"])) if c.get("cache") else Guard(self.p0)
             cfg = c.get("cfg") or [0.0, 0.125, 0.5]
             self.r = loader.HotReloader(self.guard, self.src, initial_load=bool(c.get("initial_load")),
                                         poll_interval=None, backoff_min=cfg[0], backoff_max=cfg[1], jitter_ratio=cfg[2])
@@ -1295,6 +1296,11 @@ def run(chk):
     import time
     t0 = time.time()
     cases = gen_cases(chk)
+    for c in cases:
+        spec = c10.cache_spec(chk.rng)      # None for most: no cache, as before
+        if spec:
+            c["cache"] = spec
+            chk.count("cache:atomic_write schedules with a failing cache backend")
     check_cases(chk, cases)
     evidence(chk)
     chk.extra["reload_file_tie"]["wall_s"] = round(time.time() - t0, 2)
